@@ -362,31 +362,62 @@ def blockPost (U : List Name) (σ : Order) (p : List Nat) (st : Ste) (pre : Pre)
   let st := { st with syms := SymbolsUpdate U σ p st.syms scopes pre.an.bound newfree (st.typ == .cls) }
   (st, setUpdate U σ p 10 pre.an.free newfree)
 
+/-- The three sets a block hands to `AnalyzeChildBlock` for each of its children
+(`newbound`, `newfree`, `newglobal` of `AnalyzeBlock`).  Go maps are REFERENCES: a callee that is
+handed the map itself writes into the caller's set.  The sets are therefore threaded through the
+loop over the children as state, and what the caller holds after each call is computed explicitly. -/
+structure Sets where
+  bound : NSet
+  free : NSet
+  glob : NSet
+
 /-- the loop `for _, entry := range st.Children { entry.AnalyzeChildBlock(newbound, newfree, newglobal, allfree) }`
-(`AnalyzeChildBlock` and the `AnalyzeBlock` it calls are inlined; `i` is the child's index) -/
-def analyzeForest (U : List Name) (σ : Order) : Forest → List Nat → Nat → NSet → NSet → NSet → NSet →
-    Except Err (Forest × NSet)
-  | .nil, _, _, _, _, _, childFree => pure (.nil, childFree)
-  | .node st kids sibs, path, i, bound, free, glob, childFree => do
+(`AnalyzeChildBlock` and the `AnalyzeBlock` it calls are inlined; `i` is the child's index; `ps` = the
+parent's three sets as they are when child `i` is reached; the result carries them as they are after
+the last child).
+
+`cpBound` is the line `temp_bound := bound.Copy()` of `AnalyzeChildBlock`: `true` (the code that
+exists) = `AnalyzeBlock` works on a copy, so its in-place `bound.Discard(name)` (a `global` declaration,
+see `AnalyzeName`) stays private to the child and the parent's `newbound` is what it was;
+`false` = the map itself is passed, the callee's discards land in the parent's `newbound` and every
+child analysed LATER sees them.  Only `analyzeForest := analyzeForestG … true` models gpython; the
+`false` variant exists to state (Props: `bound_copy_needed_witness`) that the copy is load-bearing.
+`temp_free`/`temp_global` are copies in both variants (sites 12, 13). -/
+def analyzeForestG (U : List Name) (σ : Order) (cpBound : Bool) : Forest → List Nat → Nat → Sets → NSet →
+    Except Err (Forest × Sets × NSet)
+  | .nil, _, _, ps, childFree => pure (.nil, ps, childFree)
+  | .node st kids sibs, path, i, ps, childFree => do
     let p := path ++ [i]
-    let tempBound := setCopy U σ p 11 bound
-    let tempFree := setCopy U σ p 12 free
-    let tempGlobal := setCopy U σ p 13 glob
+    -- AnalyzeChildBlock(bound, free, global, child_free)
+    let tempBound := if cpBound then setCopy U σ p 11 ps.bound else ps.bound
+    let tempFree := setCopy U σ p 12 ps.free
+    let tempGlobal := setCopy U σ p 13 ps.glob
+    -- st.AnalyzeBlock(temp_bound, temp_free, temp_global); the AnalyzeName loop writes all three
     let pre ← blockPre U σ p st (some tempBound) tempFree tempGlobal
-    let (kids, allfree) ← analyzeForest U σ kids p 0 pre.newbound pre.newfree pre.newglobal NSet.empty
-    let (st, tempFree) := blockPost U σ p st pre allfree
+    let (kids, ns, allfree) ← analyzeForestG U σ cpBound kids p 0 ⟨pre.newbound, pre.newfree, pre.newglobal⟩ NSet.empty
+    let (st, tempFree) := blockPost U σ p st { pre with newfree := ns.free } allfree
+    -- child_free.Update(temp_free)
     let childFree := setUpdate U σ p 14 childFree tempFree
-    let (sibs, childFree) ← analyzeForest U σ sibs path (i + 1) bound free glob childFree
-    pure (.node st kids sibs, childFree)
+    -- what the parent's `newbound` holds now: untouched if the child got a copy, otherwise
+    -- `temp_bound` IS `newbound` and holds what the child's AnalyzeName loop left in it
+    let boundAfter := if cpBound then ps.bound else (match pre.an.bound with | some b => b | none => ps.bound)
+    let (sibs, ps, childFree) ← analyzeForestG U σ cpBound sibs path (i + 1) { ps with bound := boundAfter } childFree
+    pure (.node st kids sibs, ps, childFree)
+
+/-- the analysis of the children of a block as gpython does it (`temp_bound := bound.Copy()`) -/
+def analyzeForest (U : List Name) (σ : Order) : Forest → List Nat → Nat → Sets → NSet →
+    Except Err (Forest × Sets × NSet) := analyzeForestG U σ true
 
 /-- `Analyze` on the module table (`forest` = the result of pass 1) -/
-def analyzeTop (U : List Name) (σ : Order) : Forest → Except Err Forest
+def analyzeTopG (U : List Name) (σ : Order) (cpBound : Bool) : Forest → Except Err Forest
   | .node st kids _ => do
     let pre ← blockPre U σ [] st none NSet.empty NSet.empty
-    let (kids, allfree) ← analyzeForest U σ kids [] 0 pre.newbound pre.newfree pre.newglobal NSet.empty
-    let (st, _) := blockPost U σ [] st pre allfree
+    let (kids, ns, allfree) ← analyzeForestG U σ cpBound kids [] 0 ⟨pre.newbound, pre.newfree, pre.newglobal⟩ NSet.empty
+    let (st, _) := blockPost U σ [] st { pre with newfree := ns.free } allfree
     pure (.node st kids .nil)
   | .nil => pure .nil
+
+def analyzeTop (U : List Name) (σ : Order) : Forest → Except Err Forest := analyzeTopG U σ true
 
 /-! names of a program (the universe `U` the map ranges filter) -/
 
@@ -405,6 +436,12 @@ def namesOf (b : Body) : List Name := (["__class__", ".0", "_[1]"] ++ b.names).e
 def newSymTable (σ : Order) (b : Body) : Except Err Forest := do
   let f ← parseModule b
   analyzeTop (namesOf b) σ f
+
+/-- `NewSymTable` as it would be WITHOUT the line `temp_bound := bound.Copy()` (not gpython's code;
+used by `bound_copy_needed_witness` and by the generator's sensitivity tag `sib`) -/
+def newSymTableNoCopy (σ : Order) (b : Body) : Except Err Forest := do
+  let f ← parseModule b
+  analyzeTopG (namesOf b) σ false f
 
 /-! ## compile.go: Find, NameOp, makeClosure — and vm/eval.go on the resulting access paths -/
 
@@ -608,18 +645,23 @@ def makeClosure (f : Frame) (child : Code) : M (List Nat) :=
     let (_, c) ← slotCell f (closureSlot f.code n)
     pure c
 
-/-- `EvalCode`'s cell/free set-up: arguments that are cell variables move into their cell (`Cell2arg`) -/
-def enterFunction (code : Code) (args : List (Name × Val)) (closure : List Nat) : M Frame := do
-  let mut fast : Dict := args
-  let mut cs : List Nat := []
-  for cv in code.cellvars do
-    if code.params.contains cv then
+/-- the loop over `code.Cellvars` in `EvalCode`: one fresh cell per cell variable; an argument that is a
+cell variable moves from its fast slot into its cell (`Cell2arg`) -/
+def enterCells (params : List Name) : List Name → Dict → M (Dict × List Nat)
+  | [], fast => pure (fast, [])
+  | cv :: rest, fast => do
+    if params.contains cv then
       let c ← newCell (fast.get cv)
-      fast := fast.del cv
-      cs := cs ++ [c]
+      let (fast, cs) ← enterCells params rest (fast.del cv)
+      pure (fast, c :: cs)
     else
       let c ← newCell none
-      cs := cs ++ [c]
+      let (fast, cs) ← enterCells params rest fast
+      pure (fast, c :: cs)
+
+/-- `EvalCode`'s cell/free set-up: `CellAndFreeVars` = the fresh cells, then the closure tuple -/
+def enterFunction (code : Code) (args : List (Name × Val)) (closure : List Nat) : M Frame := do
+  let (fast, cs) ← enterCells code.params code.cellvars args
   pure { code := code, fast := fast, locals := none, cellAndFree := cs ++ closure }
 
 /-- the values of the parameters of one call `f()`: defaults were evaluated at `def` time -/
